@@ -63,6 +63,8 @@ class Job:
         self.harness_error = None
         self.budget = sub.soft_budget[self.ti]
         self.cur_path = None
+        self.steps = 0
+        self.step_rejects = 0
 
     # -- one case ---------------------------------------------------------
     def over_budget(self):
@@ -262,7 +264,7 @@ class Job:
                         fr = frames[-1]
                         raise Violation("crash", exc=type(e).__name__, where=f"{fr[0]}:{fr[1]}", msg=str(e)[:200]) from e
                 except Reject as r:
-                    job.rejected += 1
+                    job.step_rejects += 1
                     job.reject_reasons[r.reason[:60]] += 1
                     return False
                 except Violation as v:
@@ -279,6 +281,7 @@ class Job:
             def _step(self, name, args):
                 if self.skip or self.state is None:
                     return
+                job.steps += 1
                 self.case["steps"].append([name, jsonable(args)])
                 fn = spec.ops[name][1]
                 self._guard(lambda: fn(self.state, args))
@@ -383,6 +386,8 @@ class Job:
             "classes": dict(self.classes),
             "samples": self.samples,
             "max_err": self.max_err,
+            "steps": self.steps,
+            "step_rejects": self.step_rejects,
             "wall_s": round(time.time() - self.t0, 2),
             "exhaustive": bool(self.sub.exhaustive),
             "mode": "enum" if self.sub.enum else ("machine" if self.sub.machine else "given"),
